@@ -174,7 +174,6 @@ func c02Exec(raw json.RawMessage, hist []string, deep bool) *bfsResult {
 			return res
 		}
 		w.M.datagram(dg, w.Now)
-		w.touch(w.M) // requests whose answers might be remembered, after every report
 		sk := fmt.Sprintf("%s/%d", dn, slot)
 		if sets[sk] == nil {
 			sets[sk] = map[string][]byte{}
